@@ -185,13 +185,13 @@ func scanSources(fn *ssa.Function) (bad []finding) {
 			}
 			path := sc.Pkg.Pkg.Path()
 			if kind, banned := bannedPkgs[path]; banned {
-				bad = append(bad, finding{fn, site.Pos(), "call " + path + "." + sc.Name(), kind})
+				bad = append(bad, finding{fn, site.Pos(), "call " + path + "." + cname(sc), kind})
 			}
-			if path == "runtime" && sc.Name() == "SetFinalizer" {
+			if path == "runtime" && cname(sc) == "SetFinalizer" {
 				bad = append(bad, finding{fn, site.Pos(), "call runtime.SetFinalizer", "finalizers run at GC-dependent times"})
 			}
 			if path == "sync" && typeName(recvType(sc)) == "Pool" {
-				bad = append(bad, finding{fn, site.Pos(), "call sync.Pool." + sc.Name(), "GC-dependent cache"})
+				bad = append(bad, finding{fn, site.Pos(), "call sync.Pool." + cname(sc), "GC-dependent cache"})
 			}
 		}
 	}
@@ -383,16 +383,16 @@ func c13fixture(p *Prog, r *Reporter) {
 	}
 	for _, fn := range fp.funcs {
 		if b, _ := scanMapRanges(fn, impure); len(b) > 0 {
-			f1[fn.Name()] = true
+			f1[cname(fn)] = true
 			if os.Getenv("ARCHECHECK_DEBUG") != "" {
-				fmt.Fprintln(os.Stderr, "fixture R1:", fn.Name(), b[0].why)
+				fmt.Fprintln(os.Stderr, "fixture R1:", cname(fn), b[0].why)
 			}
 		}
 		if len(scanSources(fn)) > 0 {
-			f2[fn.Name()] = true
+			f2[cname(fn)] = true
 		}
 		if len(scanAddresses(fn)) > 0 {
-			f3[fn.Name()] = true
+			f3[cname(fn)] = true
 		}
 	}
 	fixtureCheck(r, "R1", f1, []string{"badRangeAppend", "badRangeCall"}, fp)
@@ -502,7 +502,7 @@ func c19r1(p *Prog, r *Reporter) {
 	}
 	for _, w := range writes {
 		name := p.FuncName(w.fn)
-		if w.fn.Name() == "init" || strings.HasPrefix(w.fn.Name(), "init#") || w.fn.Synthetic == "package initializer" {
+		if cname(w.fn) == "init" || strings.HasPrefix(cname(w.fn), "init#") || w.fn.Synthetic == "package initializer" {
 			continue
 		}
 		if deadSinkWrite(w, writes) {
@@ -571,7 +571,7 @@ func scanConcurrency(fn *ssa.Function) (bad []finding) {
 	for _, site := range callsIn(fn) {
 		if sc := site.Common().StaticCallee(); sc != nil && sc.Pkg != nil {
 			if pth := sc.Pkg.Pkg.Path(); pth == "sync" || pth == "sync/atomic" {
-				bad = append(bad, finding{fn, site.Pos(), "call " + pth + "." + sc.Name(), "synchronisation primitive: shared state between goroutines"})
+				bad = append(bad, finding{fn, site.Pos(), "call " + pth + "." + cname(sc), "synchronisation primitive: shared state between goroutines"})
 			}
 		}
 	}
@@ -596,12 +596,12 @@ func c19fixture(p *Prog, r *Reporter) {
 	f1, f2 := map[string]bool{}, map[string]bool{}
 	for _, w := range writes {
 		if !deadSinkWrite(w, writes) {
-			f1[w.fn.Name()] = true
+			f1[cname(w.fn)] = true
 		}
 	}
 	for _, fn := range fp.funcs {
 		if len(scanConcurrency(fn)) > 0 {
-			f2[fn.Name()] = true
+			f2[cname(fn)] = true
 		}
 	}
 	fixtureCheck(r, "R1", f1, []string{"badGlobalWrite", "badGlobalScratch"}, fp)
